@@ -218,11 +218,13 @@ template <class T> std::vector<double> otsu_plane(int k, int n, vh::rng& r) {
     return v;
 }
 
-template <class Image> void run_otsu(const char* lname) {
-    typedef typename Image::value_type P;
+// Image = source image type; P = destination pixel type (same colour space, possibly another channel order):
+// the binarisation is judged per COLOUR
+template <class Image, class P = typename Image::value_type> void run_otsu(const char* lname) {
     typedef typename gil::channel_type<P>::type T;
     typedef CT<T> M;
     const int NC = gil::num_channels<P>::value;
+    const std::vector<int> sp = cu::phys_of_colour<typename Image::value_type>(), dp = cu::phys_of_colour<P>();   // colour -> memory position
     std::vector<std::pair<int, int>> shapes;
     if (vh::thorough()) { for (int w = 1; w <= 6; ++w) for (int h = 1; h <= 6; ++h) shapes.push_back({w, h}); }
     else { const int s[][2] = {{2, 1}, {1, 2}, {3, 1}, {3, 2}, {2, 3}, {4, 4}, {5, 3}, {1, 5}}; for (auto& p : s) shapes.push_back({p[0], p[1]}); }
@@ -245,7 +247,7 @@ template <class Image> void run_otsu(const char* lname) {
                 for (int y = 0; y < h; ++y)
                     for (int x = 0; x < w; ++x) sv(x, y)[c] = M::make(plane[(size_t)y * w + x]);
             }
-            std::vector<unsigned char> snap = cu::snapshot(src);
+            std::vector<double> snap = cu::values_of(gil::const_view(src));
             auto csv = gil::subimage_view(gil::const_view(src), 0, 0, w, h);   // explicit dimensions (an image built as 0xN reports 0x0)
             if (k == O_TWO_LASTHI && w == 3 && h == 2)
                 vh::sample(vh::cat("threshold_optimal(otsu, ", cls, " ", w, "x", h, ", both directions): no UB, output in {0,max}, one threshold separates the classes per channel"));
@@ -273,7 +275,7 @@ template <class Image> void run_otsu(const char* lname) {
                     std::string wit;
                     for (int y = 0; y < h; ++y)
                         for (int x = 0; x < w; ++x) {
-                            double s = cu::num(csv(x, y)[c]), o = cu::num(dv(x, y)[c]);
+                            double s = cu::num(csv(x, y)[sp[(size_t)c]]), o = cu::num(dv(x, y)[dp[(size_t)c]]);     // c is a colour index
                             if (o != 0 && o != MAXV) { if (!bad_value) wit = vh::cat("dst(", x, ",", y, ")[", c, "]=", o, " is neither 0 nor ", MAXV); bad_value = true; continue; }
                             bool greater_side = dir == 0 ? (o == MAXV) : (o == 0);   // regular: px > T -> max; inverse: px > T -> 0
                             if (MAXV == 0) greater_side = false;
@@ -283,7 +285,7 @@ template <class Image> void run_otsu(const char* lname) {
                     if (bad_value) vh::viol(vh::cat("otsu-output-values.", M::name(), ".", lname, ".", dn), ctx + wit);
                     else if (!(max_off < min_on) || on_at_lo)
                         vh::viol(vh::cat("otsu-single-threshold.", M::name(), ".", lname, ".", dn),
-                                 ctx + vh::cat("channel ", c, ": a source value ", max_off, " is on the '<= T' side while ", min_on, " is on the '> T' side"));
+                                 ctx + vh::cat("colour ", c, ": a source value ", max_off, " is on the '<= T' side while ", min_on, " is on the '> T' side"));
                     if (k == O_TWO_LASTHI || k == O_TWO_LASTLO)
                         vh::obs(vh::cat("otsu.two-level.", (max_off > -1e300 && min_on < 1e300) ? "separated." : "not-separated.", M::name()));
                 }
@@ -291,7 +293,7 @@ template <class Image> void run_otsu(const char* lname) {
                 vh::distinct(1);
                 vh::obs(vh::cat("otsu.completed.", M::name(), ".", oname(k)));
             }
-            if (!cu::same_bytes(src, snap)) vh::viol(vh::cat("src-modified.otsu.", M::name(), ".", lname), "source bytes changed");
+            if (cu::values_of(gil::const_view(src)) != snap) vh::viol(vh::cat("src-modified.otsu.", M::name(), ".", lname), "source values changed");
         }
     }
 }
@@ -318,6 +320,12 @@ int main(int argc, char** argv) {
     run_otsu<gil::rgb8s_image_t>("rgb");
     run_otsu<gil::gray16s_image_t>("gray");
     run_otsu<gil::rgb16s_image_t>("rgb");
+#elif C16_PART == 3   // Otsu with differing source/destination channel orders
+    run_otsu<gil::rgb8_image_t, gil::bgr8_pixel_t>("rgb8-to-bgr8");
+    run_otsu<gil::bgr8_image_t, gil::rgb8_pixel_t>("bgr8-to-rgb8");
+    run_otsu<gil::rgba8_image_t, gil::abgr8_pixel_t>("rgba8-to-abgr8");
+    run_otsu<gil::rgb8_planar_image_t, gil::bgr8_pixel_t>("rgb8planar-to-bgr8");
+    run_otsu<gil::rgb16_image_t, gil::bgr16_pixel_t>("rgb16-to-bgr16");
 #else   // C16_PART == 2: float32 channels (needs a tree where threshold_binary/truncate compile for them)
     run_threshold<gil::gray32f_image_t, gil::gray32f_pixel_t>("gray", false);
     run_threshold<gil::rgb32f_image_t, gil::rgb32f_pixel_t>("rgb", false);
